@@ -6,6 +6,11 @@ package leader
 // instance `self` (C01: every successful mutation it issued is one of the allowed forms; C05: token rules).
 // prioOf/takeover describe self's configuration.
 func vpAuditLog(st *vpStore, self string, takeover bool, prio int, stoppedWithDelete bool) {
+	vpAuditLogL(st, self, takeover, prio, stoppedWithDelete, false)
+}
+
+// leaderAtStop: the instance still reported leadership when its graceful shutdown was called
+func vpAuditLogL(st *vpStore, self string, takeover bool, prio int, stoppedWithDelete bool, leaderAtStop bool) {
 	seen := map[string]bool{} // tokens that ever appeared in the record
 	curTok := ""
 	for _, m := range st.log {
@@ -54,7 +59,25 @@ func vpAuditLog(st *vpStore, self string, takeover bool, prio int, stoppedWithDe
 				vpAssert("C01.mut.update-on-vacant", m.rev == m.prevSeq)
 			}
 		case "delete":
-			vpAssert("C01.mut.delete-own", stoppedWithDelete && m.prevLive && m.prevBy == self)
+			own := stoppedWithDelete && m.prevLive && m.prevBy == self
+			if own {
+				break
+			}
+			// who owned the record when this delete was issued?
+			ownerAtIssue := ""
+			for _, is := range st.issued {
+				if is.by == self && is.op == "delete" && is.at <= m.at {
+					ownerAtIssue = is.ownerAt
+				}
+			}
+			switch {
+			case stoppedWithDelete && ownerAtIssue == self:
+				vpAssert("C01.mut.delete-own:lost-in-flight", false) // replaced between issue and application of the Delete
+			case stoppedWithDelete && leaderAtStop:
+				vpAssert("C01.mut.delete-own:unnoticed-preemption", false) // still claimed leadership at the stop call, record already a successor's
+			default:
+				vpAssert("C01.mut.delete-own", false)
+			}
 		}
 	}
 	_ = curTok
